@@ -1,6 +1,7 @@
 import LyModel.Sib.Tree
 import LyModel.Sib.Rb
 import LyModel.Sib.RbDel
+import LyModel.Sib.RbMerge
 /-!
 driver ops of component `sib`:
 
@@ -156,6 +157,19 @@ def handle (op : String) (args : List String) : String :=
         " ".intercalate ((Rb.inorder t).map (fun (k : Int) => toString k))
   | "rbs", [_variant, _desc, _yang, script] =>
     "ok" ++ (((script.splitOn ",").filter (· ≠ "")).foldl rbStep ("", ⟨Rb.Lyds.empty, [], 0⟩)).1
+  | "rbm", [_variant, _desc, _yang, dscript, sscript] =>
+    -- two lists built by rbs scripts, then the second moved onto the first in one call (`lyds_merge`)
+    let run := fun (st : RbSt) (sc : String) => (((sc.splitOn ",").filter (· ≠ "")).foldl rbStep ("", st)).2
+    let d := run ⟨Rb.Lyds.empty, [], 0⟩ dscript
+    let dup := sscript.startsWith "D"
+    let s := run ⟨Rb.Lyds.empty, [], d.serial⟩ (if dup then (sscript.drop 1).toString else sscript)
+    match s.sibs with
+    | [] => "err Empty"
+    | [x] => if d.sibs.isEmpty then "err Empty" else "ok" ++ rbShow (rbInsert d x)     -- a single node: `lyd_insert_node`
+    | _ =>
+      if d.sibs.isEmpty then "err Empty" else
+      let t := Rb.mergeTree rbGt d.lyds.tree d.sibs (if dup then .nil else s.lyds.tree) s.sibs
+      "ok" ++ rbShow { d with lyds := ⟨t, d.sibs.length + s.sibs.length⟩, sibs := Rb.inorder t }
   | "rbleak", [] => "ok 0"
   | _, _ => "err BadOp"
 
